@@ -104,7 +104,51 @@ def defaultsModel : List String → String
       "\t".intercalate [toString d.minV, toString d.maxV, Driver.showNatList d.ciphers, Driver.showNatList d.curves, bool01 d.preferServer]
   | _ => "bad-case"
 
+/-- per-site `clientAuth|disableSNI`, ';' separated -/
+def parseSniCfgs (s : String) : Option (List Cfg) :=
+  if s = "" then some [] else (s.splitOn ";").mapM fun e =>
+    match e.splitOn "|" with
+    | [ca, ds] => do
+      pure { hostname := [], enabled := true, minV := 0, maxV := 0, ciphers := [], curves := [], preferServer := false,
+             clientAuth := ← ca.toNat?, clientCerts := [], alpn := [], disableSNIMatching := ds == "1" }
+    | _ => none
+
+structure SniCase where
+  sites : List Casket.VHost.Site
+  cfgs : List Cfg
+  req : Casket.VHost.Req
+  sni : Option Bytes
+
+def parseSni : List String → Option SniCase
+  | [ss, cs, h, p, sni] => do
+    pure { sites := ← Driver.C01.parseSites ss, cfgs := ← parseSniCfgs cs,
+           req := { host := ← bytes h, path := ← bytes p, protoMajor := 1 }, sni := ← parseLocal sni }
+  | _ => none
+
+def showServed : Served → String
+  | .site i => s!"site\t{i}"
+  | .forbidden => "forbidden"
+  | .notFound st => s!"notfound\t{st}"
+
+def parseServed (s : String) : Option Served :=
+  match s.splitOn "\t" with
+  | ["site", i] => i.toNat?.map .site
+  | ["forbidden"] => some .forbidden
+  | ["notfound", st] => st.toNat?.map .notFound
+  | _ => none
+
+def sniModel (f : List String) : String :=
+  match parseSni f with
+  | none => "bad-case"
+  | some c => showServed (serveTLS c.sites c.cfgs c.req c.sni)
+
+def sniJudge (f : List String) (out : String) : String :=
+  match parseSni f, parseServed out with
+  | some c, some o => Casket.TLSSpec.sniVerdict c.cfgs c.req c.sni o
+  | _, _ => "bad:unparsable:" ++ out
+
 def streams : List Driver.Stream := [
+  { name := "c06.snihost", model := sniModel, judge := sniJudge },
   { name := "c06.select", model := selectModel, judge := selectJudge },
   { name := "c06.defaults", model := defaultsModel, judge := fun _ _ => "ok" }
 ]
